@@ -881,6 +881,42 @@ func idleInstallRound(t *testing.T, col *table.Collector, tcp bool, seed int64, 
 		}
 		col.Cov("idle-install-exchanges", 1)
 	}
+	// (3) an exchange that timed out leaves a connection with an answer still to come: the next call must
+	// not be handed that answer (the connection is not to be pooled again)
+	{
+		pairTimeout = T
+		r3 := newPair(t, tcp, 3, 2, true, seed+2, false, 0)
+		pairTimeout = old
+		r3.resp.mu.Lock()
+		r3.resp.hold = T * 3 / 2
+		r3.resp.mu.Unlock()
+		slow := g.appendEntries(false)
+		err1 := r3.a.AppendEntries("B", r3.addrB, slow, new(raft.AppendEntriesResponse))
+		r3.resp.mu.Lock()
+		r3.resp.hold = 0
+		ans1, seen1 := r3.resp.answer[tagOf(slow)]
+		r3.resp.mu.Unlock()
+		if err1 == nil || (seen1 && ans1.Error != nil) {
+			col.Cov("inconclusive-timeout-then-reuse", 1) // a loaded machine, or the handler's own error
+		} else {
+			next := g.appendEntries(false)
+			var resp3 raft.AppendEntriesResponse
+			err2 := r3.a.AppendEntries("B", r3.addrB, next, &resp3)
+			time.Sleep(T) // the late answer of the first exchange is out by now
+			r3.resp.mu.Lock()
+			ans2, seen2 := r3.resp.answer[tagOf(next)]
+			r3.resp.mu.Unlock()
+			if err2 == nil && seen2 && ans2.Error == nil {
+				if d := eqResp(&resp3, nil, ans2); d != "" {
+					col.Violate("response-altered-or-mispaired", "call %s right after a call that timed out on the same transport: %s", tagOf(next), d)
+				}
+			} else if err2 == nil && !seen2 {
+				col.Violate("response-altered-or-mispaired", "call %s right after a call that timed out returned a response although the handler never saw the request", tagOf(next))
+			}
+			col.Cov("timeout-then-reuse", 1)
+		}
+		r3.close()
+	}
 	// (2)
 	q.resp.mu.Lock()
 	q.resp.hold = 6 * T
